@@ -977,7 +977,7 @@ def stream_prune(ctx, cases, fnd, full):
     from autode.values import Distance
     saved_threshold = Config.rmsd_threshold
     skipped = 0
-    for _ in range(400 if full else 70):
+    for it in range(400 if full else 70):
         nmax = 16 if full else 8
         Config.rmsd_threshold = saved_threshold
         kind, ens = gen_energies(rng, nmax)
@@ -985,6 +985,12 @@ def stream_prune(ctx, cases, fnd, full):
         labels = rng.choice(RMSD_TEMPLATES[:3])
         geoms = gen_geoms(rng, n, labels)
         e_tol, n_sigma, tol, rm = rng.choice(E_TOLS), rng.choice(N_SIGMAS + [5, 5, 5]), rng.choice(R_TOLS + [None, None, None]), rng.random() < 0.5
+        if it == 0:
+            # directed: the witness of Props.energy_prune_idempotent_refuted with mutually different geometries - the
+            # composite prune() is not idempotent either (known finding, reported every run)
+            ens, labels, e_tol, n_sigma, tol, rm = [0.0, 0.01, 0.02, 0.03, 0.04, 3.0, 10.0], ("C", "C", "O", "N"), 0.001, 2.0, 0.05, False
+            n = len(ens)
+            geoms = [[(1.1 * a + 0.9 * i * (a == 2), 0.7 * a * a - 0.8 * i * (a == 3), 0.5 * i * (a == 1)) for a in range(4)] for i in range(n)]
         set_name_mode(rng.choice(NAME_MODES))
         # without an explicit rmsd_tol the threshold is autode.Config.rmsd_threshold AS IT IS WHEN prune() IS CALLED
         cfg_tol = rng.choice([0.05, 0.1, 0.6, 1.0, None]) if tol is None else None
